@@ -54,6 +54,15 @@ def search(ctx, N):
                         if np.shape(Jv) != (m, n) or not np.allclose(Jv, J, rtol=1e-12, atol=1e-12 * (1 + np.max(np.abs(A)))):
                             ctx.violation('jacobian-container:m=%s' % ('1' if m == 1 else '>1'), 'Jacobian of an affine map R^%d -> R^%d: when %s the result has shape %r (expected %r) / other numbers' % (
                                 n, m, vname, np.shape(Jv), (m, n)), dict(desc, A=A.tolist(), variant=vname))
+                # a step ratio given by the user (other than the default 2): the rule, the steps and the Richardson stage must all use it
+                if np.shape(J) == (m, n) and method in ('central', 'forward', 'backward'):
+                    for ratio in (1.6, 3.0):
+                        for cls_, want_, fv_ in ((nd.Jacobian, A, lambda t: np.dot(A, t) + b), (nd.Gradient, A[0], lambda t: np.dot(A[0], t) + b[0])):
+                            Jr = cls_(fv_, method=method, order=order, step_ratio=ratio)(x)
+                            ctx.count(1, ('affine-user-ratio', method, order))
+                            if np.size(Jr) != np.size(want_) or not np.allclose(np.ravel(Jr), np.ravel(want_), rtol=1e-8, atol=1e-8 * (1 + np.max(np.abs(A)))):
+                                ctx.violation('jacobian-affine-user-ratio:%s' % method, 'nd.%s(affine map, method=%r, order=%d, step_ratio=%r) differs from the matrix of the map by %.3g' % (
+                                    cls_.__name__, method, order, ratio, float(np.max(np.abs(np.ravel(Jr) - np.ravel(want_)))) if np.size(Jr) == np.size(want_) else float('nan')), dict(desc, A=A.tolist(), step_ratio=ratio))
             elif kind == 1:
                 c = rng.uniform(0.5, 1.5, size=m)
 
